@@ -78,6 +78,9 @@ func cleanupYamlFiles() {
 	}
 }
 
+// preStart (optional) runs inside the fresh world before the proxy is started (DNS scripting).
+var preStart func()
+
 var simEnvKeys = []string{"KEEP_NEXT_HOP_ROUTE", "DEFAULT_DIALOG_TIMEOUT"}
 
 // StartSim starts a world and, unless NoStart, the proxies described by the YAML text, exactly
@@ -95,6 +98,9 @@ func StartSim(yamlText string, o SimOpts) *Sim {
 	uuid.SetRand(&detRand{})
 	s := &Sim{W: w, UseMain: o.Main}
 	dynamicHostResolver = NewDynamicHostResolver(2)
+	if preStart != nil {
+		preStart()
+	}
 	if o.NoStart {
 		return s
 	}
